@@ -111,6 +111,9 @@ var audienceSpec = map[int][]string{
 	120: {"TranNotifyChatSubject→MEMBERS(FieldChatID)"},
 }
 
+// transactions whose notification to the others is unconditional once the request is accepted
+var unconditionalAudience = map[int]bool{115: true, 116: true, 120: true}
+
 func checkC12(R *Run) {
 	P := R.P
 	R.rule("audience", "for the seven chat-family transactions, the set of (transaction type, recipient source) pairs of every transaction a handler addresses to someone else equals the protocol's audience table: members of the chat named by the request's chat-ID field, the registry filtered by the element's own Authorize(9 read chat), or the request's user-ID field; each constructed inside the loop over that list, once per element")
@@ -240,6 +243,32 @@ func checkC12(R *Run) {
 			if rc.loop != nil {
 				if !rc.loop.Block().Dominates(ci.Block()) {
 					problems = append(problems, "the construction at "+P.ipos(ci)+" is outside the loop over the recipients")
+				}
+				// join / leave / subject: the others are told on every path that answers the request normally — the
+				// notification does not depend on any further condition (such as a comparison of two snapshots)
+				if unconditionalAudience[num] && snd.ctx == nil {
+					lb := rc.loop.Block()
+					if ii, ok := rc.loop.Index.(ssa.Instruction); ok {
+						lb = ii.Block() // the loop header (where the range index is advanced and tested)
+					}
+					for _, ret := range returnsOf(fn) {
+						if len(ret.Block().Preds) == 0 && ret.Block() != fn.Blocks[0] {
+							continue
+						}
+						rv := retValue(ret, 0)
+						if isNilConst(rv) || P.reaches(rv, func(x ssa.Value) bool {
+							cx, ok := x.(*ssa.Call)
+							return ok && calleeName(&cx.Call) == "(*hotline.ClientConn).NewErrReply"
+						}) && !P.reaches(rv, func(x ssa.Value) bool {
+							cx, ok := x.(*ssa.Call)
+							return ok && calleeName(&cx.Call) == "(*hotline.ClientConn).NewReply"
+						}) {
+							continue // refused request
+						}
+						if !mustPassBefore(fn, ret, func(ins ssa.Instruction) bool { return ins.Block() == lb }) {
+							problems = append(problems, "the notification of "+src+" at "+P.ipos(ci)+" is skipped on some path that still answers the request (return at "+P.ipos(ret)+"): members miss a join / leave / subject change")
+						}
+					}
 				}
 			}
 		}
